@@ -97,7 +97,8 @@ async def party_main(world, p, prog, case):
             rec['result_field_order'] = int(type(r).order)
         out['flds'].append(rec)
     for n in prog['nums']:
-        T = rt.SecInt(n['l']) if n['kind'] == 'int' else rt.SecFxp(n['l'], n['f'])
+        kw = {} if n.get('n') is None else {'n': n['n']}      # n > 2: a prime with an n-th root of unity is searched
+        T = rt.SecInt(n['l'], **kw) if n['kind'] == 'int' else rt.SecFxp(n['l'], n['f'], **kw)
         out['nums'].append({'order': int(T.field.order), 'bit_length': T.bit_length, 'frac': T.frac_length})
     return out
 
@@ -143,6 +144,11 @@ def judge(fam, case, cfg, w, res):
             if rec['order'] <= 1 << (l + f + k + 1) or (t > 0 and rec['order'] <= m) or not _is_prime_big(rec['order']):
                 res.violations.append(('invariant:number-field-size', f"party {p.pid}: {n} with k={k}: field of order {rec['order']} "
                                                                       f"(needs a prime > 2^{l + f + k + 1} and > m)"))
+                return
+            nn = n.get('n')
+            if nn is not None and nn > 2 and _is_prime(nn) and (rec['order'] - 1) % nn:
+                res.violations.append(('invariant:number-field-root', f"party {p.pid}: {n}: field of order {rec['order']} has no "
+                                                                      f"{nn}-th root of unity"))
                 return
             pr['num_types'] = pr.get('num_types', 0) + 1
 
@@ -215,4 +221,6 @@ def gen(rng, cfg, tier='quick'):
         else:
             f = rng.choice((1, 4, 8, 16, 32))
             nums.append({'kind': 'fxp', 'l': rng.choice((f, 2 * f, 2 * f + 3, 3 * f, 64)), 'f': f})
+        if rng.random() < 0.3:
+            nums[-1]['n'] = rng.choice((2, 3, 5, 7, 12, 40, 257))
     return {'family': NAME, 'flds': flds, 'nums': nums}
